@@ -103,6 +103,10 @@ theorem booked_setC_some (cs : List Campaign) (c o : Campaign) (h : getC cs c.ui
     booked (setC cs c) = booked cs - o.pool.avail + c.pool.avail := by
   rw [booked_setC, h]
 
+theorem booked_setC_same (cs : List Campaign) (c c' : Campaign) (h : getC cs c.uid = some c) (hu : c'.uid = c.uid) :
+    booked (setC cs c') = booked cs - c.pool.avail + c'.pool.avail := by
+  rw [booked_setC, hu, h]
+
 theorem booked_setC_none (cs : List Campaign) (c : Campaign) (h : getC cs c.uid = none) :
     booked (setC cs c) = booked cs + c.pool.avail := by
   rw [booked_setC, h]; simp only; omega
